@@ -133,13 +133,21 @@ pub fn check_program(acc: &mut ShardResult, name: &str, s: &Program, raw: Option
         Ok(Ok(p)) => p,
         Ok(Err(e)) => {
             // Show the printed text around the reported location.
-            let at: Option<usize> = e.split("location: ").nth(1).and_then(|r| r.split(|c: char| !c.is_ascii_digit()).next()).and_then(|n| n.parse().ok());
+            let at: Option<usize> = e
+                .split("location: ")
+                .nth(1)
+                .or_else(|| e.split("token: (").nth(1))
+                .and_then(|r| r.split(|c: char| !c.is_ascii_digit()).next())
+                .and_then(|n| n.parse().ok());
             let around = at.map(|a| {
                 let lo = (0..=a.saturating_sub(80).min(text.len())).rev().find(|i| text.is_char_boundary(*i)).unwrap_or(0);
                 let hi = (a.saturating_add(80).min(text.len())..=text.len()).find(|i| text.is_char_boundary(*i)).unwrap_or(text.len());
                 text[lo..hi].to_string()
             });
-            fail(acc, "text:parse-failed", format!("printed program does not parse back: {}; printed text there: {around:?}", e.chars().take(300).collect::<String>()));
+            // Closure types and the functions generated for them carry free-text debug names
+            // (`{closure@lib.cairo:3:13: 3:24}`, ``Generated `..Fn::call` for {closure@..}``).
+            let sig = if around.as_deref().is_some_and(|a| a.contains("{closure@")) { "text:parse-failed:closure-names" } else { "text:parse-failed" };
+            fail(acc, sig, format!("printed program does not parse back: {}; printed text there: {around:?}", e.chars().take(300).collect::<String>()));
             return;
         }
         Err((loc, msg)) => {
